@@ -39,7 +39,9 @@ def drive(d, nsteps, ops, numrec, layout="sparse", pvars=True, rev=False, script
     start = EPOCH + np.timedelta64(3600, "s")
     stop = start + np.timedelta64((-1 if rev else 1) * nsteps * DT, "s")
     timer = TimeKeeper(start=start, stop=stop, dt=DT, time_reversal=rev, reference=ref)
-    state = State(particle_variables=dict(release_time="time", x0=float) if pvars else None)
+    # lon/lat written to the output are also state variables (placeholders: the output computes them from X, Y)
+    state = State(instance_variables=dict(lon=float, lat=float) if lonlat else None, particle_variables=dict(release_time="time", x0=float) if pvars else None,
+                  default_values=dict(lon=-999.0, lat=-999.0) if lonlat else None)
     ivars = {k: dict(v) for k, v in IVARS.items()}
     if lonlat:
         ivars["lon"] = dict(encoding=dict(datatype="f8"), attributes=dict())
@@ -136,8 +138,11 @@ def verify(files, history, released, timer, numrec, layout, pvars, stem="out", l
                         fails.append(f"{path.name} record {lr}: pids not strictly increasing with pid[k] >= k")
                     if lonlat:
                         lon = np.asarray(nc.variables["lon"][s0 : s0 + cnt])
-                        if not np.allclose(lon, 5.0 + 0.01 * np.asarray(h["X"])):
-                            fails.append(f"{path.name} record {lr}: lon is not xy2ll of the record's positions")
+                        lat = np.asarray(nc.variables["lat"][s0 : s0 + cnt])
+                        if len(lon) != cnt or not np.allclose(lon, 5.0 + 0.01 * np.asarray(h["X"])) or not np.allclose(lat, 60.0 + 0.02 * 3.0):
+                            fails.append(f"{path.name} record {lr}: lon/lat is not xy2ll of the record's positions")
+                        if len(nc.variables["lon"]) != int(pc.sum()):
+                            fails.append(f"{path.name}: lon has {len(nc.variables['lon'])} instances, the counts sum to {int(pc.sum())}")
                 else:
                     row = np.ma.filled(nc.variables["X"][lr, :].astype(float), np.nan)
                     for p in range(len(row)):
@@ -148,6 +153,12 @@ def verify(files, history, released, timer, numrec, layout, pvars, stem="out", l
                             fails.append(f"{path.name} record {lr}: dense X[{p}] = {row[p]} should be fill (unborn/dead)")
                     if h["pids"] and max(h["pids"]) >= len(row):
                         fails.append(f"{path.name} record {lr}: dense row too short")
+                    if lonlat:
+                        lrow = np.ma.filled(nc.variables["lon"][lr, :].astype(float), np.nan)
+                        for p in h["pids"]:
+                            if p >= len(lrow) or abs(lrow[p] - (5.0 + 0.01 * h["X"][h["pids"].index(p)])) > 1e-9:
+                                fails.append(f"{path.name} record {lr}: dense lon[{p}] is not xy2ll of the record's position")
+                                break
                 r += 1
             if pvars:
                 npid = history[r - 1]["npid"]
@@ -181,9 +192,10 @@ def output_runs_bounded(p):
                         sub = d / f"r{cases}"
                         sub.mkdir()
                         cases += 1
+                        ll = (nsteps + ops + numrec) % 2 == 0  # lon/lat requested in every second set-up (both layouts)
                         try:
-                            files, hist, rel, timer = drive(sub, nsteps, ops, numrec, layout, pvars, rev, ref=EPOCH if cases % 2 else None, lonlat=(layout == "sparse" and cases % 3 == 0))
-                            f = verify(files, hist, rel, timer, numrec, layout, pvars, lonlat=(layout == "sparse" and cases % 3 == 0))
+                            files, hist, rel, timer = drive(sub, nsteps, ops, numrec, layout, pvars, rev, ref=EPOCH if cases % 2 else None, lonlat=ll)
+                            f = verify(files, hist, rel, timer, numrec, layout, pvars, lonlat=ll)
                             if not f and numrec and layout == "sparse":
                                 # concatenation of the split files equals the unsplit run
                                 sub2 = d / f"u{cases}"
